@@ -664,3 +664,231 @@ func init() {
 		},
 	})
 }
+
+// ---- codec.tags / codec.source ----------------------------------------------------------
+
+func cdTagsSetRun(c Case, initNil bool) Result {
+	var t girc.Tags
+	if !initNil {
+		t = girc.Tags{}
+	}
+	ops := c[2:]
+	log := ""
+	oracle := ""
+	want := map[string]string{} // what Get must return: the values given to successful Sets
+	for i := 0; i+1 < len(ops); i += 2 {
+		k, v := ops[i], ops[i+1]
+		if err := t.Set(k, v); err != nil {
+			log += "E"
+		} else {
+			log += "O"
+			want[k] = v
+			if t == nil && oracle == "" {
+				if _, ok := t.Get(k); !ok {
+					oracle = "tags-set-nil: Set on a nil Tags reports success but the value is lost"
+				}
+			}
+		}
+		if t != nil && oracle == "" {
+			for wk, wv := range want {
+				if got, ok := t.Get(wk); !ok || got != wv {
+					if wk == k {
+						oracle = "tags-get-after-set: Get does not return the value given to Set"
+					} else {
+						oracle = "tags-set-other-keys: Set disturbed another key"
+					}
+					break
+				}
+			}
+			if len(t) != len(want) {
+				oracle = "tags-set-other-keys: key set differs from the successfully set keys"
+			}
+		}
+	}
+	gets := []string{}
+	for i := 0; i+1 < len(ops); i += 2 {
+		var g *string
+		if v, ok := t.Get(ops[i]); ok {
+			g = &v
+		}
+		gets = append(gets, OptHex(g))
+	}
+	sig := "set/" + strings.Trim(strings.Replace(strings.Replace(log, "OO", "O", -1), "EE", "E", -1), "")
+	if len(sig) > 12 {
+		sig = sig[:12]
+	}
+	if initNil {
+		sig += "/nil"
+	}
+	return Result{Obs: log + "|" + cdShowTags(t, false) + "|" + Hex(string(t.Bytes())) + "|" + strings.Join(gets, ","), Oracle: oracle, Sig: sig}
+}
+
+func cdGenSetOps(r *rand.Rand) []string {
+	var ops []string
+	for i := r.Intn(7); i > 0; i-- {
+		k := cdPickS(r, cdKeyPool)
+		if r.Intn(10) == 0 {
+			k = cdPickS(r, cdKeyOdd)
+		}
+		var v string
+		switch r.Intn(5) {
+		case 0:
+			v = cdPickS(r, cdPlainVals)
+		case 1:
+			v = RandBytes(r, r.Intn(12), `ab; \`+"\r\n:sn")
+		case 2:
+			v = RandBytes(r, r.Intn(6), "")
+		case 3:
+			v = cdPickS(r, cdRawValPool)
+		default:
+			v = RandBytes(r, r.Intn(10), "abcXYZ019-_=/~!")
+		}
+		if r.Intn(60) == 0 {
+			v = strings.Repeat("x", 1300+r.Intn(1500))
+		}
+		ops = append(ops, k, v)
+	}
+	return ops
+}
+
+func init() {
+	Register(&Suite{
+		Name: "codec.tags",
+		Prop: []string{"C01", "C02"},
+		Fixed: func() []Case {
+			out := []Case{}
+			for _, raw := range []string{"", "@", "a", "a=", "=a", "a=b", "a=b;a=c", "a;b;c", "@a=b;c;example.com/ddd=eee", "a=b\\sc\\:\\\\\\r\\n", "a=\\", "a=\\x", "+a=1", "+=1", "+", ";;", "a==b", "a b=c", "a=b c", "caf\xc3\xa9", "caf\xc3\xa9=1", "@@a"} {
+				out = append(out, Case{"P", raw})
+			}
+			out = append(out,
+				Case{"S", "m", "a", "b"},
+				Case{"S", "m", "a", "; \\\r\n", "b", "", "a", "x"},
+				Case{"S", "m", "bad key", "v", "k", "caf\xc3\xa9", "k", "\x00"},
+				Case{"S", "m", "k", strings.Repeat("v", 4091)},
+				Case{"S", "m", "k", strings.Repeat("v", 4090)},
+				Case{"S", "m", "a", strings.Repeat("v", 2044), "b", strings.Repeat("v", 2044)},
+				Case{"S", "m", "a", strings.Repeat("v", 2043), "b", strings.Repeat("v", 2043), "c", ""},
+			)
+			return out
+		},
+		Gen: func(r *rand.Rand) Case {
+			if r.Intn(3) == 0 {
+				var sb strings.Builder
+				if r.Intn(5) == 0 {
+					sb.WriteByte('@')
+				}
+				for i := r.Intn(6); i >= 0; i-- {
+					k := cdPickS(r, cdKeyPool)
+					if r.Intn(8) == 0 {
+						k = cdPickS(r, cdKeyOdd)
+					}
+					sb.WriteString(k)
+					switch r.Intn(4) {
+					case 0:
+					case 1:
+						sb.WriteString("=" + cdPickS(r, cdRawValPool))
+					case 2:
+						sb.WriteString("=" + cdPickS(r, cdRawValOdd))
+					default:
+						sb.WriteString("=" + cdSpecEscape(cdPickS(r, cdPlainVals)))
+					}
+					if i > 0 {
+						sb.WriteByte(';')
+					}
+				}
+				raw := sb.String()
+				if r.Intn(6) == 0 {
+					raw = cdMutate(r, raw)
+				}
+				return Case{"P", raw}
+			}
+			return append(Case{"S", "m"}, cdGenSetOps(r)...)
+		},
+		Run: func(c Case) Result {
+			if c[0] == "P" {
+				t := girc.ParseTags(c[1])
+				res := Result{Obs: cdShowTags(t, false) + "|" + cdShowTags(t, true) + "|" + Hex(string(t.Bytes())) + "|" + strconv.Itoa(t.Len()), Sig: "parse/" + strconv.Itoa(len(t))}
+				return res
+			}
+			return cdTagsSetRun(c, len(c) > 1 && strings.HasPrefix(c[1], "n"))
+		},
+	})
+
+	// Set on a nil Tags: kept apart from codec.tags (not listed in conf/C01.json) because
+	// the current Go code loses the value while reporting success; see
+	// notes/proposed-fixes/tags-set-nil.diff.
+	Register(&Suite{
+		Name:  "codec.tags.nilrecv",
+		Prop:  []string{"C01"},
+		Fixed: func() []Case { return []Case{{"S", "n", "a", "b"}, {"S", "n", "bad key", "v"}} },
+		Gen:   func(r *rand.Rand) Case { return append(Case{"S", "n"}, cdGenSetOps(r)...) },
+		Run:   func(c Case) Result { return cdTagsSetRun(c, true) },
+	})
+
+	Register(&Suite{
+		Name: "codec.source",
+		Prop: []string{"C01", "C02"},
+		Fixed: func() []Case {
+			var out []Case
+			// every string of length <= 4 over {'!', '@', 'a', ' '}
+			alpha := []byte("!@a ")
+			var rec func(prefix []byte, depth int)
+			rec = func(prefix []byte, depth int) {
+				out = append(out, Case{string(prefix)})
+				if depth == 0 {
+					return
+				}
+				for _, b := range alpha {
+					rec(append(append([]byte{}, prefix...), b), depth-1)
+				}
+			}
+			rec(nil, 4)
+			return out
+		},
+		Exhaustive: "every string of length <= 4 over '!' '@' 'a' SPACE (341 strings)",
+		Gen: func(r *rand.Rand) Case {
+			if r.Intn(4) == 0 {
+				return Case{RandBytes(r, r.Intn(20), "ab!@. \xc3\xa9")}
+			}
+			s := &girc.Source{Name: cdPickS(r, cdNamePool)}
+			if r.Intn(2) == 0 {
+				s.Ident = cdPickS(r, cdIdentPool)
+			}
+			if r.Intn(2) == 0 {
+				s.Host = cdPickS(r, cdHostPool)
+			}
+			if r.Intn(8) == 0 {
+				s.Name = cdPickS(r, cdSrcOdd)
+			}
+			raw := s.Name
+			if s.Ident != "" {
+				raw += "!" + s.Ident
+			}
+			if s.Host != "" {
+				raw += "@" + s.Host
+			}
+			return Case{raw}
+		},
+		Run: func(c Case) Result {
+			s := girc.ParseSource(c[0])
+			res := Result{Obs: cdShowSrc(s) + "|" + Hex(s.String()) + "|" + strconv.Itoa(s.Len()), Sig: "src"}
+			if s.Ident != "" {
+				res.Sig += "/i"
+			}
+			if s.Host != "" {
+				res.Sig += "/h"
+			}
+			if string(s.Bytes()) != s.String() {
+				res.Oracle = "source-bytes: Bytes and String differ"
+			}
+			// round trip: a source that is well-formed per the statement is reproduced
+			if cdWfSource(s) {
+				q := girc.ParseSource(s.String())
+				if *q != *s {
+					res.Oracle = "source-roundtrip: ParseSource(String()) differs"
+				}
+			}
+			return res
+		},
+	})
+}
